@@ -35,6 +35,7 @@ EXPLANATION = (
     "in a function called solely under the single-communication-qubit guard; every correction emission and the post_process flag "
     "lie under expect_phi_plus (and role == RECV)."
     ' C10.E: the gate of every correction-emitting site is decided as an implication (helper predicates inlined, all valuations of its atoms, both roles). C10.X: sdk_epr_keep is executed abstractly for every combination of post routine / sequential / communication qubits / role: exactly one correction mechanism is enabled. C10.Z: no truthiness test on an int-typed value.'
+    " C10.T interprets the correction emitter twice on one persistent builder object with two different qubit registers and judges the second run (a command object kept from an earlier call carries that call's register). C10.K: nothing kept for later calls depends on an argument of the first call."
 )
 LEVEL_TEXT = (
     "Static analysis, partial: correction table, post-processing table (18 entries), correction target and gating are decided at every "
@@ -75,15 +76,23 @@ def check_correction_table(ctx):
     bsp, qp = params[1], params[2]
     # the emitter is interpreted abstractly (loops over tables, comprehensions and helper calls included): `self` and the Bell-state
     # future are recorders, so the run yields the sequence  if_eq(v) ... add_pending_commands([...]) ...
-    sc = C.Scenario()
-    it = C.Interp(repo, ev, sc, None)
+    # The builder object outlives the call: its attributes start as Builder.__init__ leaves them (constants only) and keep what
+    # the emitter stores in them.  The emitter is run twice on the same builder with two different qubit registers; the second
+    # run is the one judged, so a command object kept from an earlier call (with that call's register in it) shows up.
     selfrec = C.Obj(None, {"name": "builder"}, "future")
-    bellrec = C.Obj(None, {"name": "bell_state"}, "future")
-    qreg = C.RegSym("qubit_reg")
-    try:
-        it.call_function(b.module, fn, [bellrec, qreg], {}, self_obj=selfrec)
-    except TypeError:
-        it.call_function(b.module, fn, [selfrec, bellrec, qreg], {})
+    init = b.methods.get("__init__")
+    for st in (A.body_nodes(init) if init is not None else []):
+        tg = st.targets[0] if isinstance(st, ast.Assign) else st.target if isinstance(st, ast.AnnAssign) else None
+        if tg is not None and A.is_self_attr(tg) and isinstance(getattr(st, "value", None), ast.Constant):
+            selfrec.fields[tg.attr] = st.value.value
+    for qreg in (C.RegSym("qubit_reg_of_an_earlier_call"), C.RegSym("qubit_reg")):
+        sc = C.Scenario()
+        it = C.Interp(repo, ev, sc, None)
+        bellrec = C.Obj(None, {"name": "bell_state"}, "future")
+        try:
+            it.call_function(b.module, fn, [bellrec, qreg], {}, self_obj=selfrec)
+        except TypeError:
+            it.call_function(b.module, fn, [selfrec, bellrec, qreg], {})
     arms: Dict[str, list] = {}
     current = None
     for rec in sc.recorded:
@@ -511,6 +520,9 @@ def run(ctx):
     # 0 is an ordinary id / value / address: nothing int-valued may be tested by truthiness (nqsa/truth.py)
     from .. import truth
     truth.check(ctx, "C10.Z", ['netqasm.sdk.builder', 'netqasm.sdk.build_epr'])
+    # a value remembered for later calls is keyed by every argument it depends on (nqsa/memo.py)
+    from .. import memo
+    memo.check(ctx, "C10.K", ['netqasm.sdk.builder', 'netqasm.sdk.build_epr'])
 
 
 BF = "netqasm/sdk/builder.py"
